@@ -77,7 +77,7 @@ def single_file_oracle(model, tr_case, ir):
 
 
 def run(rep, model, tier, seed, broken=()):
-    n = 120 if tier == "quick" else 4000
+    n = 300 if tier == "quick" else 4000
     rng = core.rng_for(seed, "C13")
     rep.coverage["rule"] = ("generated trees (depth <= 4, empty directories, directories with only non-CMake files, "
                             "directories without CMake files above ones with, mixed-case extensions, dotted/dashed "
